@@ -138,6 +138,23 @@ def run(pid, tier, args):
                 if "BADERR" in o or o.startswith(("panic", "hang")):
                     v.violation("example grammar %s on input %s: %s" % (p[0], p[1], o), {"property": pid, "kind": "example", "grammar": p[0], "input_quoted": p[1], "real": o})
             v.validated(nex)
+            # (2a) parsers built under unusual option lists (token names the lexer does not have, odd lookaheads, nothing /
+            # everything elided): Build may refuse, but a parser that was built must return from every entry point
+            out = vlib.vh(vhbin, ["optcfg-run"], timeout=600)
+            nb = 0
+            for line in out.splitlines():
+                p = line.split("\t")
+                if len(p) != 3:
+                    continue
+                if p[1] == "ok":
+                    nb += 1
+                    if p[2].startswith(("panic", "hang")):
+                        v.violation("parser built with the option list `%s`: %s" % (p[0], p[2][:200]), {"property": pid, "kind": "optcfg", "config": p[0], "real": p[2]})
+                    v.validated(1)
+                elif p[1].startswith("panic"):
+                    log("note: Build panics under the option list %s (Build is C19's business, and C19 quantifies over types and tags): %s" % (p[0], p[1][:120]))
+            if nb < 8:
+                raise Infra("vacuity: only %d option lists built" % nb)
             # (2b) the same clause judged by the trace specification Trace_ErrOK (location by Position!PosOf on the input)
             ef = os.path.join(wd, "errfacts.ndjson")
             vlib.vh(vhbin, ["errfacts-run", str(vlib.seed() + 1), "25" if quick else "300"], outfile=ef, timeout=3000)
